@@ -343,12 +343,40 @@ impl Scenario for C15Histories {
                     let n = 1 + cx.tape.draw(5);
                     let mut mtext = String::from("ASAP2_VERSION 1 71\n/begin PROJECT other \"\"\n/begin MODULE other_mod \"\"\n");
                     let mut added = Vec::new();
+                    // what the first module looks like before the merge: elements that clash with an existing name are
+                    // renamed or (if identical) dropped by merge_modules, so the arrivals are taken from the output
+                    let before: BTreeSet<(String, String)> = scan_module_level(&sut::write_str(cx, "no-panic", &file)?).into_iter().next().unwrap_or_default().into_iter().collect();
+                    let mut clash = false;
                     for _ in 0..n {
                         let kind = if !kinds_here.is_empty() && cx.tape.chance(3, 4) { *cx.tape.pick(&kinds_here) } else { *cx.tape.pick(&KINDS) };
-                        let name = fresh(cx);
+                        let mut name = fresh(cx);
+                        if cx.tape.chance(1, 5) {
+                            // the name of an element that module 0 already has (same kind: identical content is dropped,
+                            // other kind: no clash at all)
+                            if let Some(e) = oms[0].placed.iter().chain(oms[0].pending.iter()).filter(|e| KINDS.contains(&e.0.as_str())).nth(cx.tape.draw(8) as usize) {
+                                if !added.iter().any(|a: &(String, String)| a.1 == e.1) {
+                                    name = e.1.clone();
+                                    clash = true;
+                                }
+                            }
+                        }
                         mtext.push_str(&element_text(kind, &name));
                         mtext.push('\n');
                         added.push((kind.to_string(), name));
+                    }
+                    if clash {
+                        cx.probe("merge-with-a-name-that-exists-already");
+                    }
+                    // unnamed MODULE-level blocks can arrive by merge as well
+                    if cx.tape.chance(1, 6) {
+                        let nm = fresh(cx);
+                        mtext.push_str(&format!("/begin USER_RIGHTS user_{nm} /end USER_RIGHTS\n"));
+                        added.push(("USER_RIGHTS".to_string(), format!("user_{nm}")));
+                    }
+                    if cx.tape.chance(1, 6) {
+                        let nm = fresh(cx);
+                        mtext.push_str(&format!("/begin IF_DATA VENDOR_{nm} 1 2 /end IF_DATA\n"));
+                        added.push(("IF_DATA".to_string(), format!("VENDOR_{nm}")));
                     }
                     mtext.push_str("/end MODULE\n/end PROJECT\n");
                     desc = format!("merge a module with {:?}", added.iter().map(|e| format!("{} {}", e.0, e.1)).collect::<Vec<_>>());
@@ -357,7 +385,12 @@ impl Scenario for C15Histories {
                         Err(e) => return Err(cx.fail("harness", "merge-module-rejected", format!("{e}"))),
                     };
                     guarded(cx, "no-panic", &desc, || file.merge_modules(&mut other))?;
-                    oms[0].pending.extend(added);
+                    let after: Vec<(String, String)> = scan_module_level(&sut::write_str(cx, "no-panic", &file)?).into_iter().next().unwrap_or_default();
+                    let arrived: Vec<(String, String)> = after.into_iter().filter(|e| !before.contains(e)).collect();
+                    if arrived.len() > added.len() {
+                        return Err(cx.fail("order", "element-invented", format!("step {step}: merging {} elements added {} to the first module", added.len(), arrived.len())));
+                    }
+                    oms[0].pending.extend(arrived);
                     merges += 1;
                     consecutive_sorts = 0;
                 }
